@@ -549,6 +549,47 @@ def check(run, replay=None):
                          "control": {"node": "T", "op": ">", "thr": thr_u, "link": "P1"}, "t1": a_, "t2": b_, "overshoot": over, "tank_flow": q_, "paused_at": paused,
                          "full_step_change": abs(q_) * (b_ - a_) / (3.141592653589793 * d_t ** 2 / 4), "tank_diameter": d_t, "init_level": lv0, "hydraulic_timestep": hs_}, True)
                     run.count("directed crossing" + (" after a pause" if paused else ""))
+    # ---- directed: a very-low-priority SETTING control and a status control of higher priority on one valve, both true on the reported
+    #      state: the valve must show the commanded status (the implicit companion of a setting control has the priority of that control) ----
+    for rep in range(4 if thorough else 2):
+        rr = random.Random(run.seed * 5851 + rep)
+        w = wntr.network.WaterNetworkModel()
+        w.add_reservoir("R", base_head=60.0)
+        w.add_junction("J0", base_demand=0.0, elevation=5.0)
+        w.add_junction("J1", base_demand=0.002, elevation=5.0)
+        lv0, d_t = round(rr.uniform(1.5, 2.5), 2), round(rr.uniform(2.5, 4.0), 1)
+        w.add_tank("T", elevation=30.0, init_level=lv0, min_level=0.5, max_level=9.0, diameter=d_t)
+        w.add_pipe("P0", "R", "J0", length=300.0, diameter=0.15, roughness=100)
+        w.add_valve("V", "J0", "J1", diameter=0.15, valve_type="TCV", minor_loss=0.0, initial_setting=5.0, initial_status="ACTIVE")
+        w.add_pipe("P2", "J1", "T", length=100.0, diameter=0.25, roughness=120)
+        thr1 = round(lv0 + rr.uniform(0.2, 0.5), 2)
+        thr2 = round(thr1 + rr.uniform(0.1, 0.4), 2)
+        cmd = rr.choice(["CLOSED", "CLOSED", "OPEN"])
+        prio2 = rr.choice([1, 3, 5])
+        S_ = wntr.network.LinkStatus
+        w.add_control("cs", C_.Control(C_.ValueCondition(w.get_node("T"), "level", ">", thr1), C_.ControlAction(w.get_link("V"), "setting", rr.choice([2.0, 20.0])), priority=0))
+        w.add_control("cc", C_.Control(C_.ValueCondition(w.get_node("T"), "level", ">", thr2), C_.ControlAction(w.get_link("V"), "status", getattr(S_, cmd.capitalize())), priority=prio2))
+        w.options.time.hydraulic_timestep = 1800
+        w.options.time.report_timestep = 1800
+        w.options.time.duration = 10 * 1800
+        rd, ed, wd, _ = simrun.run(wntr, w)
+        if not simrun.converged(rd, ed, wd):
+            run.count("directed setting conflict: not converged")
+            continue
+        want = {"CLOSED": 0, "OPEN": 1}[cmd]
+        for t in rd.node["head"].index:
+            lvl = float(rd.node["head"].loc[t, "T"]) - 30.0
+            if lvl > thr2 + 1e-6:
+                got = int(rd.link["status"].loc[t, "V"])
+                run.case({"directed": "setting conflict", "rep": rep, "t": int(t)}, True, None)
+                run.count("directed setting conflict: both conditions true")
+                if got != want:
+                    run.violation("command_not_in_effect", "t=%d: T level > %s holds on the reported state (%.4f) but valve V reports status %d instead of %s (a very-low-priority "
+                                  "setting control on the same valve is also true)" % (int(t), thr2, lvl, got, cmd),
+                                  input={"network": "R -P0- J0 -V(TCV)- J1 -P2- T", "controls": [{"if": "T level > %s" % thr1, "then": "V setting", "priority": 0},
+                                                                                                {"if": "T level > %s" % thr2, "then": "V " + cmd, "priority": prio2}],
+                                         "time": int(t), "level": lvl, "reported_status": got})
+                    break
     res_, errors = common.run_prop_cases("C05", HEADER, TACTIC, cases, shard=120, case_timeout=30)
     for e in errors:
         run.tie_broken("correspondence case file failed to compile", e)
